@@ -30,7 +30,7 @@ def main():
         if fn is None and spec["q"] in ("ecies", "aes_dispatch"):
             from mirsym import queries_ecies as QE
             fn = getattr(QE, "q_" + spec["q"])
-        if fn is None and spec["q"] in ("checksig",):
+        if fn is None and spec["q"] in ("checksig", "interp_tx_total"):
             from mirsym import queries_checksig as QCS
             fn = getattr(QCS, "q_" + spec["q"])
         if fn is None and spec["q"] in ("ecdsa_glue",):
